@@ -120,11 +120,10 @@ CLAIMED['C16'] = dict(
     design='4/C16')
 
 CLAIMED['C18'] = dict(
-    text='hsv and hsl only. Proof over the real converter bodies for ALL float inputs in [0,1]: every result channel is assigned on every path and lies '
-         'in its range, greys ignore hue, hsv hue 1 == hue 0 (loop-free harnesses over symbolic floats = complete). Exact round trip '
+    text='hsv and hsl only. Proof over the real bodies of rgb->hsv, hsv->rgb and rgb->hsl for ALL float inputs in [0,1]: every result channel is assigned on every path and lies '
+         'in its range, greys ignore hue, hsv hue 1 == hue 0 (hsl: thorough tier) (loop-free harnesses over symbolic floats = complete). Exact round trip '
          'rgb8 -> hsv/hsl -> rgb8 and the intermediate ranges are decided by running the real code on ALL 2^24 rgb8 pixels (complete enumeration).',
-    note=TRUST + 'xyz, lab, ycbcr, cmyka, gray_alpha and the luminance converter are not covered (powf/cbrt have no usable model). hsl hue periodicity and hsl->rgb range '
-         'are proved in the thorough tier only. CBMC float model = IEEE-754 round-to-nearest.',
+    note=TRUST + 'xyz, lab, ycbcr, cmyka, gray_alpha and the luminance converter are not covered (powf/cbrt have no usable model). hsl hue periodicity is proved in the thorough tier only; hsl->rgb definedness / range for arbitrary float inputs times out on every back end and is not registered (it is exercised by the complete rgb8 enumeration only). CBMC float model = IEEE-754 round-to-nearest.',
     technique='lemma harnesses with the contract clauses over symbolic floats on extracted real bodies (CBMC SAT / cvc5); complete native enumeration of the rgb8 domain',
     design='4/C18')
 
